@@ -444,9 +444,14 @@ fn helper_lifetime(arm: Arm, c: usize, end_in_panic: bool, prebuilt: Option<(Fun
     (calls, r)
 }
 
+#[inline(never)]
+fn between_target() -> i32 {
+    std::hint::black_box(-9)
+}
+
 pub fn run_c07(ctx: &Ctx) {
     // all sequences of length <= 4 over N <= 2, c <= N+2, plus random longer ones
-    let mut seqs: Vec<(Arm, usize, Vec<(usize, bool)>, bool)> = Vec::new(); // (arm, N, [(c, ends in panic)], other thread)
+    let mut seqs: Vec<(Arm, usize, Vec<(usize, bool)>, bool, u8)> = Vec::new(); // (arm, N, [(c, ends in panic)], other thread, what else takes the library's lock between lifetimes)
     let arms: &[Arm] = if ctx.thorough { &ARMS } else { &[Arm::WhenRet, Arm::Ret, Arm::UnitAssign, Arm::UnsafeRet] };
     for &arm in arms {
         for n in 0..=2usize {
@@ -455,7 +460,10 @@ pub fn run_c07(ctx: &Ctx) {
             let maxlen = if ctx.thorough { 4 } else { 3 };
             while let Some(s) = stack.pop() {
                 if s.len() >= 2 {
-                    seqs.push((arm, n, s.iter().map(|&c| (c, false)).collect(), false));
+                    seqs.push((arm, n, s.iter().map(|&c| (c, false)).collect(), false, 0));
+                    if s.len() <= 3 {
+                        seqs.push((arm, n, s.iter().map(|&c| (c, false)).collect(), false, 1 + (s.iter().sum::<usize>() % 3) as u8));
+                    }
                 }
                 if s.len() < maxlen {
                     for &c in &cs {
@@ -474,17 +482,17 @@ pub fn run_c07(ctx: &Ctx) {
         let n = *rng.pick(&[0usize, 1, 2, 3, 5, 8]);
         let len = 2 + rng.below(7) as usize;
         let s: Vec<(usize, bool)> = (0..len).map(|_| (rng.below(n as u64 + 3) as usize, rng.chance(1, 5))).collect();
-        seqs.push((arm, n, s, rng.chance(1, 3)));
+        seqs.push((arm, n, s, rng.chance(1, 3), if rng.chance(1, 2) { 0 } else { 1 + rng.below(3) as u8 }));
     }
     let mut lifetimes = 0u64;
     let mut used: Vec<Arm> = Vec::new();
-    for (idx, (arm, n, seq, threads)) in seqs.iter().enumerate() {
+    for (idx, (arm, n, seq, threads, between)) in seqs.iter().enumerate() {
         let idx = idx as u64;
         if !ctx.mine(idx) {
             continue;
         }
         let shape: Vec<String> = seq.iter().map(|(c, p)| format!("{}{}", if c < n { "u" } else if c == n { "e" } else { "o" }, if *p { "!" } else { "" })).collect();
-        let class = format!("{:?}/N={}/{}{}", arm, n, shape.join(""), if *threads { "/threads" } else { "" });
+        let class = format!("{:?}/N={}/{}{}{}", arm, n, shape.join(""), if *threads { "/threads" } else { "" }, ["", "/between:empty-injector", "/between:preventer", "/between:other-fake"][*between as usize]);
         out::intent(idx, &class, &J::new().s("seq", &format!("{:?}", seq)).s("crash_sig", &format!("{:?}", arm)));
         N_STATIC.store(*n, Ordering::SeqCst);
         let mut sig = String::new();
@@ -501,6 +509,24 @@ pub fn run_c07(ctx: &Ctx) {
         for (li, &(c, pan)) in seq.iter().enumerate() {
             lifetimes += 1;
             let arm2 = *arm;
+            if li > 0 {
+                // something unrelated holds the library's lock between two lifetimes of the call site
+                match *between {
+                    1 => ip::lib(|| drop(InjectorPP::new())),
+                    2 => ip::lib(|| drop(InjectorPP::prevent())),
+                    3 => {
+                        let mut inj = ip::lib(InjectorPP::new);
+                        ip::lib(|| inj.when_called(injectorpp::func!(fn (between_target)() -> i32)).will_execute(injectorpp::fake!(func_type: fn() -> i32, returns: 9)));
+                        let v = between_target();
+                        ip::lib(|| drop(inj));
+                        if v != 9 {
+                            sig = "unrelated-fake-between-lifetimes-not-in-effect".into();
+                            break;
+                        }
+                    }
+                    _ => {}
+                }
+            }
             let pre = stock.pop();
             let (calls, exit) = if *threads {
                 // FuncPtr is not Send: threaded sequences always use the usual idiom
